@@ -17,12 +17,33 @@ In 30% of the cases (both versions) the lines of the document ARRIVE IN ANOTHER 
 random subset of the S lines behind everything else - so that dovetails, containments and paths arrive before the
 S lines of the segments they join (either side, every orientation mix) and gfapy has to replace its placeholder
 segments; the answers must not depend on the arrival order.
+In another 12% of the cases the graph is questioned WHILE IT IS UNDER CONSTRUCTION (`ask_at`): the document (without
+its P/O/U lines) arrives with a random subset of its S lines - one time in five all of them - behind every other
+line, and after the last of the other lines (every edge in, none of the late S lines) and at 0-2 further random
+moments ALL the queries above are asked.  The graph of such a moment is the one the lines added so far describe:
+its segments are the S lines among them and every name an L/C/E/G/F line among them uses as a segment (gfapy keeps a
+placeholder segment for it, listed by Gfa.segments and written with a co:Z tag), its records the edge lines among
+them, each classified in the complete document (true segment lengths).  A placeholder is a segment like any other:
+it is in exactly one class (also when EVERY segment of its class is still a placeholder, e.g. the far end of a
+containment), its two ends count for n_dead_ends, segment_connected_component answers for it by name and by
+instance; and no segment of Gfa.segments is outside all the classes of connected_components()
+(`components-not-a-partition-of-the-segments-with-placeholders`; the other signatures carry the suffix
+`-with-placeholders`).  The construction then goes on and the case continues as any other.
 In 70% of the cases the graph goes through a history of 1-5 changes made through ANY PUBLIC ROUTE, and the answers
 must be those of the graph as it is at the time of each query, whatever was asked before:
   * removal of a segment or of an edge by Gfa.rm(name / line) or by line.disconnect();
   * addition of a segment, dovetail, containment or internal alignment by Gfa.add_line(text) or by
     gfapy.Line(text).connect(gfa); also a dovetail to a segment that is defined only by the NEXT step (the S line
     arrives after the edge, on the from or the to side, same or opposite orientations);
+  * `clash` steps (8% of the steps): 1-2 edge lines (dovetail / containment / GFA2 internal alignment, by add_line or
+    Line.connect) which HAVE TO BE REFUSED because one of their two segment references is the name of a line of
+    another type (an edge ID, a path, a group, a gap; if the document has none, a dovetail with an ID is added
+    first), the other reference being a segment of the graph - in 85% the FIRST reference is the good one, so that
+    the refusal comes after the line has begun to attach itself; two refusals of the same kind on the same segment
+    are frequent (the counts of the library halve a sum).  A refused line is not a record of the document: the
+    query step which always follows, and every later one, must give the classes and the four counts of the text
+    (a half-attached line shows as components-raises / segment-component-raises, n_dead_ends-wrong,
+    n_containments-wrong, n_internals-wrong, n_dovetails-wrong, or as a dangling back-reference at the end);
   * renaming of a segment to a new name, and ASSIGNING A SEGMENT THE NAME IT ALREADY HAS (an identity entry of a
     renaming table), by any of the routes s.name = v / s.set("name", v) / s.sid = v / s.set("sid", v); a
     `normalise` step is a clean-up pass which assigns f(name) to EVERY segment of the graph (f = identity, lower
@@ -45,8 +66,12 @@ NOT CHECKED:
   * the order of components and of segments inside a component;
   * is_cut_link / is_cut_segment / split_connected_components (not in the property); WHAT the graph operations
     of a history do to the graph (C14/C15 and others): only that the queries describe the graph they leave;
+  * placeholder LINKS (made by a path whose link has not arrived) and placeholders of unknown type (group items):
+    the graphs questioned under construction have no P/O/U line;
   * remove_small_components when some segment has no known length (`*` without LN: the code adds None);
-  * a history step refused with a gfapy.Error is simply skipped (atomicity of refused steps belongs to C08); an
+  * a history step refused with a gfapy.Error is simply skipped (atomicity of refused steps belongs to C08: here
+    only the answers of the queries after it are compared with the text); THAT a clash line is refused is not
+    demanded either (an accepted one leaves a text that is not closed: history-leaves-dangling-reference); an
     addition naming a segment which is no longer in the graph (removed by an operation) is skipped as well;
   * if the text after the history is not closed (a line mentions a missing segment, DESIGN 7 #1/#2) the case is
     reported once as `history-leaves-dangling-reference` and nothing else is compared.
@@ -58,11 +83,15 @@ ID = "C16"
 RULE = ("random assembly-like graphs (_graphgen.gen_graph, GFA1/GFA2, isolated segments, trees, cycles, self-links, "
         "hairpins, parallel edges, containment-only and internal-only relations; <= 12 segments quick, <= 30 thorough), "
         "30% with the lines in another arrival order (S lines after the edges/paths that mention them), "
+        "12% questioned under construction (P/O/U lines dropped, a subset of the S lines behind everything else, all "
+        "queries asked while segments - whole classes of them too - are placeholders, against the lines added so "
+        "far; every segment of Gfa.segments is in a class), "
         "70% followed by 1-5 mutation steps (rm segment / rm edge by Gfa.rm or line.disconnect, add "
         "segment/dovetail/containment/internal by add_line or Line.connect, a dovetail followed by the S line of its "
         "new segment, rename to a new name or to the own name by name=/set/sid=, normalise = f(name) assigned to every "
         "segment with f mostly the identity - classes, counts and segments right after it are those of the text "
-        "before it with the names mapped -, multiply, remove_self_links, "
+        "before it with the names mapped -, clash = 1-2 edge lines refused because their second (15%: first) segment "
+        "reference is the name of an edge/path/group/gap, followed by a query, multiply, remove_self_links, "
         "remove_dead_ends, merge_linear_paths) interleaved with query steps whose answers "
         "are compared with the text of that moment (names and identity of the members), then one "
         "remove_small_components threshold. Non-trivial: at least "
@@ -125,12 +154,69 @@ def late_segments(rng, lines):
     return [l for l in lines if l not in late] + late
 
 
+def under_construction(rng, lines):
+    """-> (lines in arrival order, moments): the document without its P/O/U lines (a path makes placeholder LINKS, a
+    group placeholders of unknown type: not the subject here), a random subset of the S lines (one time in five:
+    all of them) behind everything else, and the numbers of added lines after which the queries are asked: always
+    the moment at which every other line is in and none of the late S lines, plus 0-2 random earlier/later ones"""
+    keep = [l for l in lines if l.split("\t")[0] not in ("P", "O", "U")]
+    every = rng.random() < 0.2
+    late = [l for l in keep if l.startswith("S\t") and (every or rng.random() < 0.5)]
+    rng.shuffle(late)
+    early = [l for l in keep if l not in late]
+    if rng.random() < 0.5:
+        rng.shuffle(early)
+    out = early + late
+    asks = set([len(early)])
+    for _ in range(rng.randint(0, 2)):
+        if len(out) > 1:
+            asks.add(rng.randint(1, len(out) - 1))
+    return out, sorted(k for k in asks if 0 < k < len(out))
+
+
+def _named(line, name, v):
+    """the edge line `line` (written without identifier) with the identifier `name`"""
+    return line + "\tID:Z:" + name if v == "gfa1" else "E\t" + name + line[3:]
+
+
+def clash_line(rng, v, a, la, ident, kind, first):
+    """an edge line one of whose segment references is `ident` (the name of a line which is not a segment: the line
+    has to be refused), the other the segment a; first: ident is the FIRST reference of the line"""
+    oa, ob = rng.choice("+-"), rng.choice("+-")
+    li = rng.randint(4, 12)                  # the length the writer of the line believes `ident` to have
+    if kind == "dovetail":
+        x, y = (a, rng.choice("LR"), la), (ident, rng.choice("LR"), li)
+        if first:
+            x, y = y, x
+        return dovetail_line(v, x[0], x[1], x[2], y[0], y[1], y[2], rng.choice([0, rng.randint(1, min(la, li) - 1)]))
+    if kind == "containment":
+        if v == "gfa1":
+            x, y = (a, oa), (ident, ob)
+            if first:
+                x, y = y, x
+            return "C\t%s\t%s\t%s\t%s\t%d\t*" % (x[0], x[1], y[0], y[1], rng.randint(0, 3))
+        lb = rng.randint(1, la - 1)
+        p = rng.randint(0, la - lb)
+        x, y = (a + oa, _pos(p, la), _pos(p + lb, la)), (ident + ob, "0", "%d$" % lb)
+    else:
+        b1 = rng.randint(1, la - 2); e1 = rng.randint(b1, la - 1)
+        b2 = rng.randint(1, li - 2); e2 = rng.randint(b2, li - 1)
+        x, y = (a + oa, str(b1), str(e1)), (ident + ob, str(b2), str(e2))
+    if first:
+        x, y = y, x
+    return "E\t*\t%s\t%s\t%s\t%s\t%s\t%s\t*" % (x[0], y[0], x[1], x[2], y[1], y[2])
+
+
 def gen_case(rng, tier, i):
     c = G.gen_graph(rng, tier, max_segs=12 if tier == "quick" else 30)
     c["vlevel"] = rng.choice([0, 1, 1, 1, 2, 3])
-    if rng.random() < 0.3:
+    arrival = rng.random()
+    if arrival < 0.3:
         c["lines"] = late_segments(rng, c["lines"])
+    elif arrival < 0.42:
+        c["lines"], c["ask_at"] = under_construction(rng, c["lines"])
     d = G.parse(c["lines"], c["version"])
+    idents = sorted(set(r_["name"] for r_ in d.recs if r_["rt"] != "S" and r_["name"]))
     v = c["version"]
     alive = {n: (s["len"] if s["len"] is not None else 5) for n, s in d.segs.items()}
     edges = [e["line"] for e in d.edges]
@@ -149,6 +235,27 @@ def gen_case(rng, tier, i):
         for j in range(rng.randint(1, 5)):
             if j == 0 or rng.random() < 0.5:
                 hist.append(["query", rng.randrange(1000)])
+            if alive and rng.random() < 0.08:
+                # 1-2 lines which have to be refused: a segment reference of theirs is the name of an edge, a path,
+                # a group or a gap (if the document has no such name, a named dovetail is added first)
+                a = rng.choice(sorted(alive))
+                la = alive[a]
+                if not idents:
+                    b = rng.choice(sorted(alive))
+                    lb = alive[b]
+                    idents.append("zl1")
+                    hist.append(["add", _named(dovetail_line(v, a, rng.choice("LR"), la, b, rng.choice("LR"), lb,
+                                                             rng.choice([0, rng.randint(1, min(la, lb) - 1)])), "zl1", v),
+                                 on(), [a, b]])
+                    a = rng.choice(sorted(alive))
+                    la = alive[a]
+                ident = rng.choice(idents)
+                kind = rng.choice(["dovetail", "dovetail", "containment"] + (["internal"] if v == "gfa2" else []))
+                first = rng.random() < 0.15
+                for _ in range(rng.choice([1, 2, 2] if kind != "dovetail" else [1, 1, 2])):
+                    hist.append(["clash", clash_line(rng, v, a, la, ident, kind, first), on(), a, ident])
+                hist.append(["query", rng.randrange(1000)])
+                continue
             r = rng.random()
             if r < 0.2 and alive:
                 n = rng.choice(sorted(alive))
@@ -237,13 +344,15 @@ def nontrivial(case):
 def tags(case):
     t = G.features(_doc(case))
     t.append("history%d" % len([h for h in case["history"] if h[0] != "query"]))
+    if case.get("ask_at"):
+        t.append("under-construction")
     for h in case["history"]:
         t.append("op-" + h[0])
         if h[0] == "op":
             t.append("op-" + h[1])
         if h[0] in ("rm_seg", "rm_line") and len(h) > 2:
             t.append("route-" + h[2])
-        if h[0] == "add" and len(h) > 2:
+        if h[0] in ("add", "clash") and len(h) > 2:
             t.append("route-" + h[2])
         if h[0] == "rename":
             t.append("rename-to-own-name" if h[1] == h[2] else "rename-to-new-name")
@@ -306,6 +415,13 @@ def _apply(gfapy, g, case, h):
         if len(h) > 3 and any(g.segment(n) is None for n in h[3]):
             return None       # a segment named by the new edge was removed by a graph operation
         if len(h) > 2 and h[2] == "connect":
+            return lib.outcome(lambda: gfapy.Line(h[1], version=case["version"], vlevel=case.get("vlevel", 1)).connect(g))
+        return lib.outcome(g.add_line, h[1])
+    if kind == "clash":
+        other = g.line(h[4])
+        if g.segment(h[3]) is None or other is None or other.virtual or other.record_type in ("S", "\n"):
+            return None       # the segment, or the line whose name is misused, is no longer there
+        if h[2] == "connect":
             return lib.outcome(lambda: gfapy.Line(h[1], version=case["version"], vlevel=case.get("vlevel", 1)).connect(g))
         return lib.outcome(g.add_line, h[1])
     if kind in ("rename", "normalise"):
@@ -415,30 +531,37 @@ def _queries(g, case, full, pick=0):
             case["history"], [r_["line"] for r_ in d.recs if r_["rt"] in "LCEGFP" and any(x not in d.segs for x in r_["refs"])])], None, None, text
     if d.dup_names or not all(e["valid"] for e in d.edges):
         return F, None, None, text
-    # ------------------------------------------------------------------ components
     want = G.components(d)
+    F = _ask(g, d, want, text, len(case["lines"]), full, pick)
+    return F, d, want, text
+
+
+def _ask(g, d, want, text, salt, full, pick=0, sfx=""):
+    """the queries of the property against a reference d (segs, seg_order, dovetails, containments, internals) whose
+    classes are `want`; sfx is appended to the signature of every failure"""
+    F = []
+    # ------------------------------------------------------------------ components
     r = lib.outcome(lambda: [list(c) for c in g.connected_components()])
     if r[0] != "ok":
-        F.append("components-raises: %s %s" % (r[0], r[1]))
+        F.append("components-raises%s: %s %s" % (sfx, r[0], r[1]))
     else:
         alien = [n for c in r[1] for n in foreign_members(g, c)]
         r = ("ok", [names_of(c) for c in r[1]])
         flat = [n for c in r[1] for n in c]
         if len(flat) != len(set(flat)):
-            F.append("components-overlap: a segment is listed twice: %r" % (r[1],))
+            F.append("components-overlap%s: a segment is listed twice: %r" % (sfx, r[1]))
         got = set(frozenset(c) for c in r[1])
         if got != want:
-            F.append("components-wrong: expected %r got %r" % (sorted(map(sorted, want)), sorted(map(sorted, got))))
+            F.append("components-wrong%s: expected %r got %r" % (sfx, sorted(map(sorted, want)), sorted(map(sorted, got))))
         if alien:
-            F.append("component-member-not-a-segment-of-the-gfa: connected_components() lists object(s) named %r which are "
-                     "not the segments of that name in the Gfa" % (alien,))
+            F.append("component-member-not-a-segment-of-the-gfa%s: connected_components() lists object(s) named %r which are "
+                     "not the segments of that name in the Gfa" % (sfx, alien))
     cls = {}
     for c in want:
         for n in c:
             cls[n] = c
     order = list(d.seg_order)
     both = len(order) <= 6
-    salt = len(case["lines"])
     if not full and order:
         order = [order[pick % len(order)]]
         both = False
@@ -454,32 +577,87 @@ def _queries(g, case, full, pick=0):
                 alien = foreign_members(g, r[1])
                 r = ("ok", names_of(r[1]))
             if r[0] != "ok":
-                F.append("segment-component-raises: %s by %s: %s %s" % (n, how, r[0], r[1]))
+                F.append("segment-component-raises%s: %s by %s: %s %s" % (sfx, n, how, r[0], r[1]))
             elif set(r[1]) != set(cls[n]) or len(r[1]) != len(set(r[1])):
-                F.append("segment-component-wrong: %s by %s: expected %r got %r" % (n, how, sorted(cls[n]), sorted(r[1])))
+                F.append("segment-component-wrong%s: %s by %s: expected %r got %r" % (sfx, n, how, sorted(cls[n]), sorted(r[1])))
             if alien:
-                F.append("component-member-not-a-segment-of-the-gfa: segment_connected_component(%s by %s) lists "
-                         "object(s) named %r which are not the segments of that name in the Gfa" % (n, how, alien))
+                F.append("component-member-not-a-segment-of-the-gfa%s: segment_connected_component(%s by %s) lists "
+                         "object(s) named %r which are not the segments of that name in the Gfa" % (sfx, n, how, alien))
     # ------------------------------------------------------------------ counters
     deg = G.degrees(d)
     for attr, val in (("n_dovetails", len(d.dovetails)), ("n_containments", len(d.containments)),
                       ("n_internals", len(d.internals)), ("n_dead_ends", sum(1 for v in deg.values() if v == 0))):
         r = lib.outcome(lambda: getattr(g, attr))
         if r[0] != "ok":
-            F.append("%s-raises: %s %s" % (attr, r[0], r[1]))
+            F.append("%s-raises%s: %s %s" % (attr, sfx, r[0], r[1]))
         elif r[1] != val:
-            F.append("%s-wrong: library %r, records of the text %d" % (attr, r[1], val))
+            F.append("%s-wrong%s: library %r, records of the text %d" % (attr, sfx, r[1], val))
     if str(g) != text:
-        F.append("query-mutates: the text changed during the queries")
-    return F, d, want, text
+        F.append("query-mutates%s: the text changed during the queries" % sfx)
+    return F
+
+
+def _moment(full, k):
+    """the graph which the first k lines of the document `full` (parsed with ALL its lines, so that every E line is
+    classified with the true segment lengths) describe: its segments are the S lines among them and every name
+    which an L, C, E, G or F line among them uses as a segment (gfapy keeps a placeholder segment for it), its
+    records the edge lines among them"""
+    m = G.Doc()
+    m.segs, m.seg_order = {}, []
+    edges = []
+    for r_ in full.recs[:k]:
+        for n in ([r_["name"]] if r_["rt"] == "S" else r_["refs"] if r_["rt"] in "LCEGF" else []):
+            if n not in m.segs:
+                m.segs[n] = full.segs[n]
+                m.seg_order.append(n)
+        if "edge" in r_:
+            edges.append(r_["edge"])
+    m.dovetails = [e for e in edges if e["kind"] == "L"]
+    m.containments = [e for e in edges if e["kind"] == "C"]
+    m.internals = [e for e in edges if e["kind"] == "I"]
+    return m
+
+
+def _construct(gfapy, case):
+    """the Gfa of the case, its lines added one by one -> (Gfa, failures).  At the moments case["ask_at"] (numbers of
+    lines added so far) the graph is UNDER CONSTRUCTION: some segments are placeholders, and every query of the
+    property is asked and compared with the lines added so far"""
+    asks = set(case.get("ask_at") or [])
+    if not asks:
+        return G.build(case, case.get("vlevel", 1)), []
+    full = G.parse(case["lines"], case["version"])
+    if not G.closed(full) or full.dup_names or any(e["kind"] is None or not e["valid"] for e in full.edges) \
+            or any(r_["rt"] in "POU" for r_ in full.recs):
+        asks = set()
+    g = gfapy.Gfa(version=case["version"], vlevel=case.get("vlevel", 1))
+    for k, l in enumerate(case["lines"], 1):
+        g.add_line(l)
+        if k in asks and k < len(case["lines"]):
+            m = _moment(full, k)
+            F = []
+            # the classes are classes of THE SEGMENTS OF THE GFA: no segment of Gfa.segments outside all of them
+            r = lib.outcome(lambda: (list(g.segments), [x for c in g.connected_components() for x in c]))
+            if r[0] == "ok":
+                out = sorted(str(x.name) for x in r[1][0] if not any(x is y for y in r[1][1]))
+                if out:
+                    F.append("components-not-a-partition-of-the-segments-with-placeholders: segment(s) %r of Gfa.segments "
+                             "are in no class of connected_components()" % (out,))
+            F.extend(_ask(g, m, G.components(m), str(g), len(case["lines"]), True, 0, "-with-placeholders"))
+            if F:
+                virt = sorted(str(x.name) for x in g.segments if x.virtual)
+                return g, ["%s (under construction, after the first %d lines %r; placeholder segments: %r)" % (
+                    f, k, case["lines"][:k], virt) for f in F]
+    return g, []
 
 
 def oracle(case):
     gfapy = lib.import_gfapy()
     F = []
     try:
-        g = G.build(case, case.get("vlevel", 1))
+        g, F = _construct(gfapy, case)
     except gfapy.Error:
+        return F
+    if F:
         return F
     if lib.outcome(g.validate)[0] != "ok":
         return F
